@@ -326,6 +326,12 @@ class _C14Base(BytesMixin, ZListMixin, UnitsExecutor):
                     if loader.module(rel, self.module.repo).functions.get(qual) is fnode:
                         c = cand
                         break
+        if c is None and self.inline_depth > 0 and self.contract is not None and self.contract.loops and self.cur_fn_stack:
+            # the loop the contract speaks about was moved into a private helper that is executed in place: the top function has no loop
+            # of its own left, the helper's loops take the contract's loop specifications by position
+            top = self.cur_fn_stack[0]
+            if not any(isinstance(n, (ast.For, ast.While)) for n in ast.walk(top)):
+                c = self.contract
         if c is None:
             return None
         loops = [n for n in ast.walk(fnode) if isinstance(n, (ast.For, ast.While))]
@@ -560,6 +566,12 @@ class ViewMixin:
     def yz_init(self, st, comps):
         st.ghost["YZ"] = dict(comps)
 
+    def get_slice(self, st, base, sl, node):
+        if self.is_zlist(st, base) and sl.lower is None and sl.upper is None and sl.step is None:
+            o = st.obj(base.ref)
+            return [(st, zl(st, self, o.data, ekind=o.cls))]
+        return super().get_slice(st, base, sl, node)
+
     def b_collection(self, st, name, args, node):
         if args and self.is_zlist(st, args[0]) and name in ("list", "tuple"):
             o = st.obj(args[0].ref)
@@ -567,11 +579,23 @@ class ViewMixin:
         return super().b_collection(st, name, args, node)
 
     def wrap_comp(self, n, st):
-        """`[Ctor(field=x) for x in <sequence-valued list of objects>]` -> the same sequence, elements wrapped by Ctor."""
+        """`[Ctor(field=x) for x in <sequence-valued list of objects>]` -> the same sequence, elements wrapped by Ctor;
+        `[x for x in <sequence-valued list>]` -> a copy of the list."""
         if len(n.generators) != 1 or n.generators[0].ifs or not isinstance(n.generators[0].target, ast.Name):
             return None
         e = n.elt
         var = n.generators[0].target.id
+        if isinstance(e, ast.Name) and e.id == var:
+            mark = len(self.sinks[-1])
+            res = self.ev(n.generators[0].iter, st.fork())
+            del self.sinks[-1][mark:]
+            if len(res) == 1 and self.is_zlist(res[0][0], res[0][1]) and isinstance(res[0][0].obj(res[0][1].ref).cls, tuple):
+                out = []
+                for (s2, it) in self.ev(n.generators[0].iter, st):
+                    o = s2.obj(it.ref)
+                    out.append((s2, zl(s2, self, o.data, ekind=o.cls)))
+                return out
+            return None
         if not (isinstance(e, ast.Call) and isinstance(e.func, ast.Name) and not e.args and len(e.keywords) == 1
                 and isinstance(e.keywords[0].value, ast.Name) and e.keywords[0].value.id == var):
             return None
@@ -639,6 +663,78 @@ class ViewMixin:
         if r is not None:
             return r
         return super().e_ListComp(n, st)
+
+    # ---- `for x in xs: acc.append(E)` over a symbolic sequence == `acc = acc + [E for x in xs]` (loop <-> comprehension) ----
+    def loop_as_comprehension(self, s, st):
+        if s.orelse or len(s.body) != 1:
+            return None
+        b = s.body[0]
+        ifs = []
+        if isinstance(b, ast.If) and not b.orelse and len(b.body) == 1:
+            ifs, b = [b.test], b.body[0]
+        if not (isinstance(b, ast.Expr) and isinstance(b.value, ast.Call) and isinstance(b.value.func, ast.Attribute) and b.value.func.attr == "append"
+                and isinstance(b.value.func.value, ast.Name) and len(b.value.args) == 1 and not b.value.keywords):
+            return None
+        accname = b.value.func.value.id
+        elt = b.value.args[0]
+        if any(isinstance(n, ast.Name) and n.id == accname for n in ast.walk(elt)) or any(isinstance(n, ast.Name) and n.id == accname for c in ifs for n in ast.walk(c)):
+            return None
+        if any(isinstance(n, (ast.Yield, ast.YieldFrom, ast.Await, ast.NamedExpr)) for n in ast.walk(s)):
+            return None
+        acc = st.lookup(accname)
+        if not isinstance(acc, VRef) or st.obj(acc.ref).kind != "list" or st.obj(acc.ref).data != []:
+            return None
+        mark = len(self.sinks[-1])
+        probe = self.ev(s.iter, st.fork())
+        del self.sinks[-1][mark:]
+        if len(probe) != 1 or self.concrete_items(probe[0][0], probe[0][1]) is not None or self.seq_view(probe[0][0], probe[0][1]) is None:
+            return None
+        comp = ast.ListComp(elt=elt, generators=[ast.comprehension(target=s.target, iter=s.iter, ifs=ifs, is_async=0)])
+        ast.copy_location(comp, s)
+        ast.fix_missing_locations(comp)
+        from pyvc.symex import Outcome
+        outs = []
+        for (s2, val) in self.ev(comp, st):
+            if isinstance(val, VRef):
+                o = s2.obj(val.ref)
+                fresh = s2.obj(acc.ref).fresh
+                s2.heap[acc.ref] = HeapObj(o.kind, o.data if not isinstance(o.data, list) else list(o.data), o.cls, fresh)
+                outs.append(Outcome("fall", s2))
+            else:
+                return None
+        return outs
+
+    def s_For(self, s, st):
+        try:
+            r = self.loop_as_comprehension(s, st)
+        except Unsupported:
+            r = None
+        if r is not None:
+            return r
+        return super().s_For(s, st)
+
+    def e_YieldFrom(self, n, st):
+        mode = self.view_mode()
+        if mode in ("images", "tables"):
+            out = []
+            for (s, v) in self.ev(n.value, st):
+                if self.is_zlist(s, v) and isinstance(s.obj(v.ref).cls, tuple) and s.obj(v.ref).cls[0] == "obj":
+                    y = dict(self.yz(s))
+                    key = "img" if mode == "images" else "tab"
+                    if mode == "tables" and s.obj(v.ref).cls != ("obj", "__table__"):
+                        raise Unsupported(f"{self.loc(n)} yield from a list of {s.obj(v.ref).cls!r} in a table iterator")
+                    y[key] = z3.Concat(y[key], s.obj(v.ref).data)
+                    s.ghost["YZ"] = y
+                    out.append((s, NONE))
+                else:
+                    items = self.concrete_items(s, v)
+                    if items is None:
+                        raise Unsupported(f"{self.loc(n)} yield from {v!r}")
+                    if items:
+                        raise Unsupported(f"{self.loc(n)} yield from a non-empty concrete iterable in a view")
+                    out.append((s, NONE))
+            return out
+        return super().e_YieldFrom(n, st)
 
     def e_Yield(self, n, st):
         mode = self.view_mode()
